@@ -146,8 +146,11 @@ func VerifC13FloatPool() {
 	back, err := ConvertGoType(s, Number)
 	rt.Assert(err == nil, "str -> num failed on the text form of a number")
 	rt.Assert(back.(float64) == f, "num -> str -> num changed the value")
+	// the same value also means the same sign of zero (the quantifier names negative zero)
+	rt.Assert(math.Signbit(back.(float64)) == math.Signbit(f), "num -> str -> num changed the sign of zero")
 	back, err = ConvertGoType(s, Float)
 	rt.Assert(err == nil && back.(float64) == f, "num -> str -> float changed the value")
+	rt.Assert(math.Signbit(back.(float64)) == math.Signbit(f), "num -> str -> float changed the sign of zero")
 	g, err := ConvertGoType(f, Number)
 	rt.Assert(err == nil && g.(float64) == f, "num -> num changed the value")
 	rt.Reach("float-str-float")
